@@ -242,7 +242,7 @@ _BUILTIN_NAMES = {"range", "len", "abs", "float", "int", "max", "min", "sum", "t
 class Interp:
     """One interpreter instance = one analysis context (call depth, overrides, hooks)."""
 
-    def __init__(self, overrides=None, decide=None, max_depth=12, opaque_calls=None, max_paths=64):
+    def __init__(self, overrides=None, decide=None, max_depth=12, opaque_calls=None, max_paths=64, np_overrides=None):
         # overrides: {(modname, qualname) | qualname: python callable(interp, args, kwargs) -> value}
         self.overrides = dict(overrides or {})
         self.decide = decide          # callable(cond_expr) -> True/False/None for dynamic conditions
@@ -254,6 +254,7 @@ class Interp:
         self.stmt_count = 0
         self.ite_count = 0
         self.env_log = {}             # qualname -> last Env of that function (closure extraction)
+        self.np_overrides = dict(np_overrides or {})
 
     # ------------------------------------------------------------------ entry points
     def call_function(self, modname, qualname, args=(), kwargs=None):
@@ -1694,6 +1695,8 @@ class Interp:
         raise OutsideFragment(f"math.{name}")
 
     def np_call(self, name, args, kw):
+        if name in self.np_overrides:
+            return self.np_overrides[name](self, args, kw)
         from . import npshim
         return npshim.call(self, name, args, kw)
 
